@@ -483,7 +483,7 @@ theorem C19_txt_effKey_wellformed (e : Bytes Ã— Option Bytes) (h : Txt.eqByte âˆ
 
 The sentence as worded â€” *every* dictionary with `str`/`bytes` keys and `str`/`bytes`/`None` values whose items fit is
 encoded â€” is **false** for a `str` that holds a lone surrogate: it has no UTF-8 form and the constructor raises
-`UnicodeEncodeError` (reproduced: `notes/fixes/D25-C19-txt-surrogate-repro.py`; recorded as a finding,
+`UnicodeEncodeError` (reproduced: `D33, notes/fixes/D33-repro.py`; recorded as a finding,
 `C19:txt-str-with-lone-surrogate`; the analogous escape for *names* was repaired because the property names the only
 exception allowed there).  Every other TXT theorem of this file is about `Txt.PyDict`, i.e. about dictionaries whose
 `str`s are text; `C19_txt_raw_partial` says that this is the only restriction. -/
